@@ -193,12 +193,58 @@ def parse_kv(text):
     return dict(t.split("=", 1) for t in text.split() if "=" in t)
 
 
+def req_exp_range(req):
+    """(precision, smallest, largest) binary exponent of the non-zero coordinate magnitudes of a request"""
+    toks = req.split()
+    prec = toks[1] if len(toks) > 1 else "f64"
+    lo, hi = None, None
+    for t in toks:
+        if ":" in t and not t.startswith("@"):
+            m, _, e = t.partition(":")
+            try:
+                mi, ei = int(m), int(e)
+            except ValueError:
+                continue
+            if mi == 0:
+                continue
+            x = abs(mi).bit_length() - 1 + ei
+            lo = x if lo is None else min(lo, x)
+            hi = x if hi is None else max(hi, x)
+    return prec, lo, hi
+
+
+def finding_reqs(f):
+    """the request texts a finding refers to"""
+    r = f.case
+    if r is None:
+        return []
+    if f.run is not None:
+        return [r.reqs.get(f.run, "")]
+    if f.check is not None and f.check < len(r.checks):
+        refs = [t.lstrip("RABE").split("~")[0] for t in r.checks[f.check].split()[1:]]
+        return [r.reqs[t] for t in refs if t.isdigit() and t in r.reqs]
+    return []
+
+
+def out_of_float_range(req):
+    prec, lo, hi = req_exp_range(req)
+    if lo is None:
+        return False
+    if prec == "f32":
+        return hi >= 61 or lo <= -70
+    return hi >= 509 or lo <= -530
+
+
 def classify_known(prop, f, known):
     """match a finding against known_findings.json; returns the entry or None"""
     for k in known.get("findings", []):
         if prop != "*" and prop not in k["properties"]:
             continue
         m = k["match"]
+        if m == "float-range" and f.kind == "O":
+            rq = finding_reqs(f)
+            if rq and any(out_of_float_range(q) for q in rq):
+                return k
         if m == "rounding-on-degenerate" and f.kind == "O" and getattr(f, "k_agree", True):
             kv = parse_kv(f.detail)
             if kv.get("exactmodel") == "pass" and kv.get("degenerate") == "1" and kv.get("exactrun") == "0":
@@ -309,6 +355,20 @@ def evaluate(prop, results, hangs, st, bound_check=False):
             if oc == "PANIC":
                 oc = " ".join(impl.split(" ")[:2])
             st.outcomes[oc] = st.outcomes.get(oc, 0) + 1
+            # C03 / C10: outcome and event bound, judged on valid operands only (also where the model is out of range)
+            if bound_check and not invalid and kind in ("BOOL", "SUBDIV") and "@" not in req:
+                e = edges_in_req(req)
+                bound = 4 * e * e + 2 * e + 16
+                if impl.startswith("BUDGET"):
+                    findings.append(Finding("O", r, "runaway: event budget exceeded %s edges=%d %s" % (impl.split(" ", 1)[1] if " " in impl else "", e, r.klass.get(k, "")), run=k))
+                elif impl.startswith("PANIC"):
+                    findings.append(Finding("O", r, "panic: %s %s" % (impl, r.klass.get(k, "")), run=k))
+                elif impl.startswith("NOSORT"):
+                    findings.append(Finding("O", r, "hang: the bubble sort of order_events does not terminate (pass counter hook) %s" % r.klass.get(k, ""), run=k))
+                elif impl.startswith("OK"):
+                    m = re.search(r"ev=(\d+) bumps=(\d+)", impl)
+                    if m and int(m.group(1)) > bound:
+                        findings.append(Finding("O", r, "runaway: %s events > bound %d bumps=%s" % (m.group(1), bound, m.group(2)), run=k))
             if (model.startswith("SKIP") or model.startswith("NONFINITE") or impl == "WRONGPROFILE" or impl == "MODELONLY"
                     or (impl.startswith("BADREQ unresolved_reference") and model.startswith("BADREQ"))):
                 st.skipped_runs += 1
@@ -331,18 +391,6 @@ def evaluate(prop, results, hangs, st, bound_check=False):
                     findings.append(Finding("K", r, "run %s: implementation and model disagree" % k, run=k))
             else:
                 st.agree += 1
-            # C03: outcome and event bound, judged on valid operands only
-            if bound_check and not invalid and kind in ("BOOL", "SUBDIV") and "@" not in req:
-                e = edges_in_req(req)
-                bound = 4 * e * e + 2 * e + 16
-                if impl.startswith("BUDGET"):
-                    findings.append(Finding("O", r, "runaway: event budget exceeded %s edges=%d %s" % (impl.split(" ", 1)[1] if " " in impl else "", e, r.klass.get(k, "")), run=k))
-                elif impl.startswith("PANIC"):
-                    findings.append(Finding("O", r, "panic: %s %s" % (impl, r.klass.get(k, "")), run=k))
-                elif impl.startswith("OK"):
-                    m = re.search(r"ev=(\d+) bumps=(\d+)", impl)
-                    if m and int(m.group(1)) > bound:
-                        findings.append(Finding("O", r, "runaway: %s events > bound %d bumps=%s" % (m.group(1), bound, m.group(2)), run=k))
         for i, ch in enumerate(r.checks):
             if ch.startswith("operand A") or ch.startswith("operand B"):
                 continue
@@ -373,6 +421,13 @@ def evaluate(prop, results, hangs, st, bound_check=False):
                 f.k_agree = all(r.impl.get(t) == r.model.get(t) or r.impl.get(t) == "MODELONLY" or t in r.outrange
                                 or same_up_to_representation(r.reqs[t], r.impl.get(t) or "", r.model.get(t) or "") for t in refs)
                 findings.append(f)
+        if any(c.startswith("pycmp") for c in r.checks):
+            bad = extra.cmp_oracle(r)
+            for i, msg in bad:
+                findings.append(Finding("O", r, "check %d (%s): fail %s" % (i, r.checks[i], msg), check=i))
+            npy = len([c for c in r.checks if c.startswith("pycmp")])
+            st.passed += npy - len(set(i for i, _ in bad))
+            st.check_skips -= npy
         if prop == "C16" and not invalid:
             bad = extra.c16_oracle(r)
             for i, msg in bad:
@@ -436,7 +491,7 @@ def structural_pairs():
 def build_cases(prop, tier, rng):
     """returns list of (label, [Case], dbg)"""
     q = tier == "quick"
-    fams_all = ["g1", "g2", "g3", "g4", "g12", "g13", "g14", "g2", "g10", "g11", "g1", "g12", "g13"]
+    fams_all = ["g1", "g2", "g3", "g4", "g12", "g13", "g14", "g2", "g10", "g11", "g1", "g12", "g13", "g15", "g18"]
     out = []
     if prop in ("C01", "C02", "C04"):
         n = 300 if q else 7200
@@ -452,6 +507,7 @@ def build_cases(prop, tier, rng):
         p32 = gen_pairs(rng, ["g1", "g4f32", "g2"], n // 3)
         out.append(("f32-release", plans.plan_core("C03", rng, p32, prec="f32"), False))
         out.append(("f32-debug", plans.plan_core("C03", rng, p32, prec="f32", dbg=True), True))
+        out.append(("vertex-on-edge", plans.plan_core("C03", rng, gen_pairs(rng, ["g17"], 6000 if q else 60000), dbg=False, ops=["I", "D"]), False))
         out.append(("large", extra.large_cases(2000 if q else 60000), False))
         out.append(("fn", extra.function_cases(rng, 300 if q else 5000, prec="f64"), False))
         out.append(("fn32-dbg", extra.function_cases(rng, 200 if q else 3000, prec="f32", dbg=True), True))
@@ -467,7 +523,7 @@ def build_cases(prop, tier, rng):
         out.append(("c07", plans.plan_c07(rng, corpus_pairs(80) + pp + gen_pairs(rng, fams_all + ["g14"], n)), False))
     elif prop == "C08":
         n = 60 if q else 1500
-        out.append(("c08", plans.plan_c08(rng, corpus_pairs(80) + gen_pairs(rng, fams_all, n)), False))
+        out.append(("c08", plans.plan_c08(rng, corpus_pairs(80) + gen_pairs(rng, fams_all, n) + gen_pairs(rng, ["g18", "g15", "g13", "g18"], n // 2)), False))
     elif prop == "C09":
         n = 60 if q else 1500
         out.append(("c09", plans.plan_c09(rng, corpus_pairs(80) + gen_pairs(rng, fams_all, n)), False))
@@ -476,13 +532,16 @@ def build_cases(prop, tier, rng):
         pairs = structural_pairs() + gen_pairs(rng, ["g1", "g4f32", "g2", "g1", "g4f32", "g3"], n)
         out.append(("f32", plans.plan_core("C10", rng, pairs, prec="f32"), False))
         out.append(("f32-vs-f64", extra.f32_f64_cases(rng, gen_pairs(rng, ["g1", "g2"], n // 2)), False))
+        out.append(("f32-scaled", extra.scaled_cases(rng, gen_pairs(rng, ["g1", "g12", "g13", "g2"], n // 3)), False))
         out.append(("fn32", extra.function_cases(rng, 1000 if q else 10000, prec="f32"), False))
+        out.append(("ord32", extra.order_cases_f32(rng, 1200 if q else 20000), False))
     elif prop == "C11":
         n = 240 if q else 3000
-        out.append(("c11", plans.plan_c11(rng, corpus_pairs(40) + gen_pairs(rng, ["g1", "g1", "g2", "g10", "g1", "g4"], n)), False))
+        out.append(("c11", plans.plan_c11(rng, corpus_pairs(40) + gen_pairs(rng, ["g1", "g12", "g2", "g10", "g13", "g4", "g15", "g18", "g1", "g15"], n)), False))
     elif prop == "C12":
         n = 60 if q else 600
-        out.append(("c12", plans.plan_core("C12", rng, corpus_pairs(80) + gen_pairs(rng, fams_all, n)), False))
+        # g16: members sharing boundary segments (invalid on purpose: determinism is claimed for all operands)
+        out.append(("c12", plans.plan_core("C12", rng, corpus_pairs(80) + gen_pairs(rng, fams_all + ["g15", "g16", "g15", "g16"], n)), False))
     elif prop in ("C13", "C14"):
         n = 200 if q else 5000
         pairs = corpus_pairs(60) + structural_pairs() + gen_pairs(rng, fams_all, n)
@@ -491,6 +550,7 @@ def build_cases(prop, tier, rng):
             out.append(("cf-table", extra.compute_fields_table(), False))
     elif prop == "C15":
         out.append(("orders", extra.order_cases(rng, 1500 if q else 40000), False))
+        out.append(("orders-f32", extra.order_cases_f32(rng, 600 if q else 10000), False))
         if not q:
             out.append(("orders-exhaustive-4x4", extra.exhaustive_order_cases(), False))
         n = 60 if q else 1000
@@ -593,7 +653,7 @@ def run_property(prop, tier, seed, replay, build=True):
     for label, cases, dbg in groups:
         results, hangs = runner.execute([c.text() for c in cases], dbg=dbg, tag="%s-%s" % (prop, label),
                                         timeout=(90 if tier == "quick" else 900))
-        fs = evaluate(prop, results, hangs, st, bound_check=(prop == "C03"))
+        fs = evaluate(prop, results, hangs, st, bound_check=(prop in ("C03", "C10")))
         for f in fs:
             f.group = label
             f.dbg = dbg
